@@ -13,8 +13,8 @@ cleanup() { git -C /repo worktree remove --force $root/repo 2>/dev/null; [ "${MU
 trap cleanup EXIT
 # carry over uncommitted changes of /repo (normally none)
 if ! git -C $root/repo apply "$patch"; then echo "INFRA: patch does not apply"; exit 2; fi
-cp -r /verif/harness $root/harness; rm -rf $root/harness/fuzz/target
-cp -r /verif/miri $root/miri
+cp -r ${MUT_HARNESS_SRC:-/verif/harness} $root/harness; rm -rf $root/harness/fuzz/target
+cp -r ${MUT_MIRI_SRC:-/verif/miri} $root/miri
 sed -i "s#/repo/#$root/repo/#g" $root/harness/dv/Cargo.toml $root/harness/checks/Cargo.toml $root/harness/eval/Cargo.toml $root/harness/fuzz/Cargo.toml 2>/dev/null
 sed -i "s#^target-dir.*#target-dir = \"${MUT_TARGET:-/verif/target/mut}\"#" $root/harness/.cargo/config.toml
 export CARGO_NET_OFFLINE=true RUSTFLAGS="--cfg dashu_verif" DV_OUT=$root/out DV_HARNESS=$root/harness DV_REPO=$root/repo
